@@ -26,7 +26,7 @@ func TSDFS(ts Triplestore, nodeID uint64, direction graph.Direction, maxDepth in
 			ts.EachAdjacentEdge(nextSegment.Node, direction, func(nextEdge Edge) bool {
 				if descentFilter(nextEdge) {
 					traversals.PushBack(&Segment{
-						Node:     nextEdge.Pick(direction),
+						Node:     nextEdge.PickAdjacent(nextSegment.Node, direction),
 						Edge:     nextEdge.ID,
 						Previous: nextSegment,
 					})
@@ -71,7 +71,7 @@ func TSBFS(ts Triplestore, nodeID uint64, direction graph.Direction, maxDepth in
 			ts.EachAdjacentEdge(nextSegment.Node, direction, func(nextEdge Edge) bool {
 				if descentFilter(nextEdge) {
 					traversals.PushBack(&Segment{
-						Node:     nextEdge.Pick(direction),
+						Node:     nextEdge.PickAdjacent(nextSegment.Node, direction),
 						Edge:     nextEdge.ID,
 						Previous: nextSegment,
 					})
@@ -127,7 +127,7 @@ func TSStatelessBFS(ts Triplestore, rootNode uint64, direction graph.Direction, 
 					}
 
 					traversals.PushBack(PathTerminal{
-						Node:     nextEdge.Pick(direction),
+						Node:     nextEdge.PickAdjacent(nextSegment.Node, direction),
 						Distance: nextDistance,
 						Weight:   weight,
 					})
